@@ -8,6 +8,7 @@
 package c04
 
 import (
+	"syscall"
 	"bytes"
 	"crypto/sha256"
 	"crypto/tls"
@@ -549,7 +550,31 @@ func (r *runner) do(q *reqSpec, withHeaders bool, bearer string) outcome {
 		req.Header.Set("Authorization", "Bearer "+bearer)
 	}
 	rw := httptest.NewRecorder()
-	r.handler.ServeHTTP(rw, req)
+	// a handler that neither answers nor blocks but burns CPU is reported (CPU time, not
+	// wall time, decides: 20 s of CPU for one in-memory request)
+	done := make(chan struct{})
+	go func() {
+		defer close(done)
+		r.handler.ServeHTTP(rw, req)
+	}()
+	var ru0 syscall.Rusage
+	syscall.Getrusage(syscall.RUSAGE_SELF, &ru0)
+	tick := time.NewTicker(500 * time.Millisecond)
+wait:
+	for {
+		select {
+		case <-done:
+			break wait
+		case <-tick.C:
+			var ru syscall.Rusage
+			syscall.Getrusage(syscall.RUSAGE_SELF, &ru)
+			if cpu := time.Duration(ru.Utime.Nano() + ru.Stime.Nano() - ru0.Utime.Nano() - ru0.Stime.Nano()); cpu > 20*time.Second {
+				tick.Stop()
+				return outcome{Status: -1, Body: fmt.Sprintf("no answer after %v of CPU time: the request handler spins", cpu.Round(time.Second))}
+			}
+		}
+	}
+	tick.Stop()
 	out := outcome{Status: rw.Code, Body: rw.Body.String(), Calls: rectoken.Calls()}
 	for _, line := range strings.Split(r.logbuf.String(), "\n") {
 		var m map[string]any
@@ -642,6 +667,9 @@ func checkCertRequest(t *rapid.T, run *runner, c *confSpec, q *reqSpec, nets []*
 	features := 0
 	class := q.Endpoint
 
+	if got.Status == -1 {
+		fail(t, name, c, q, "%s", got.Body)
+	}
 	// 1. no panic, ever
 	if got.Stack != "" {
 		if k := c.key(q.Key); k != nil && k.Kind == "alias" && c.key(k.Alias) == nil && knownSet.Has(danglingKey) {
